@@ -1,0 +1,97 @@
+//go:build verif
+
+package block
+
+import (
+	"context"
+)
+
+// This file is compiled only with the `verif` build tag. It adds accessors used by the
+// deterministic-simulation harness; it changes no existing behaviour.
+
+// VerifPublishBlock runs exactly what the aggregation loops run for one block.
+func (m *Manager) VerifPublishBlock(ctx context.Context) error {
+	return m.publishBlock(ctx)
+}
+
+// VerifSetPublishBlock replaces the publishBlock function (the seam the package's own tests use).
+func (m *Manager) VerifSetPublishBlock(f func(ctx context.Context) error) {
+	m.publishBlock = f
+}
+
+// VerifSubmitHeadersStep performs one iteration of HeaderSubmissionLoop's body.
+// The bool result tells whether a submission was attempted.
+func (m *Manager) VerifSubmitHeadersStep(ctx context.Context) (bool, error) {
+	if m.pendingHeaders.isEmpty() {
+		return false, nil
+	}
+	headersToSubmit, err := m.pendingHeaders.getPendingHeaders(ctx)
+	if err != nil {
+		return false, err
+	}
+	if len(headersToSubmit) == 0 {
+		return false, nil
+	}
+	return true, m.submitHeadersToDA(ctx, headersToSubmit)
+}
+
+// VerifSubmitDataStep performs one iteration of DataSubmissionLoop's body.
+func (m *Manager) VerifSubmitDataStep(ctx context.Context) (bool, error) {
+	if m.pendingData.isEmpty() {
+		return false, nil
+	}
+	signedDataToSubmit, err := m.createSignedDataToSubmit(ctx)
+	if err != nil {
+		return false, err
+	}
+	if len(signedDataToSubmit) == 0 {
+		return false, nil
+	}
+	return true, m.submitDataToDA(ctx, signedDataToSubmit)
+}
+
+// VerifHeaderInCh exposes the header event channel.
+func (m *Manager) VerifHeaderInCh() chan NewHeaderEvent { return m.headerInCh }
+
+// VerifDataInCh exposes the data event channel.
+func (m *Manager) VerifDataInCh() chan NewDataEvent { return m.dataInCh }
+
+// VerifSignalRetrieve signals the RetrieveLoop like the sync loop's DA ticker does.
+func (m *Manager) VerifSignalRetrieve() { m.sendNonBlockingSignalToRetrieveCh() }
+
+// VerifSignalHeaderStore signals the HeaderStoreRetrieveLoop like the sync loop's block ticker does.
+func (m *Manager) VerifSignalHeaderStore() { m.sendNonBlockingSignalToHeaderStoreCh() }
+
+// VerifSignalDataStore signals the DataStoreRetrieveLoop like the sync loop's block ticker does.
+func (m *Manager) VerifSignalDataStore() { m.sendNonBlockingSignalToDataStoreCh() }
+
+// VerifSignalDAIncluder signals the DAIncluderLoop.
+func (m *Manager) VerifSignalDAIncluder() { m.sendNonBlockingSignalToDAIncluderCh() }
+
+// VerifDAIncluderSignalPending reports whether a signal for the DAIncluderLoop is buffered.
+func (m *Manager) VerifDAIncluderSignalPending() bool { return len(m.daIncluderCh) > 0 }
+
+// VerifRetrieveSignalPending reports whether a signal for the RetrieveLoop is buffered.
+func (m *Manager) VerifRetrieveSignalPending() bool { return len(m.retrieveCh) > 0 }
+
+// VerifDAHeight returns the DA height the retriever will examine next.
+func (m *Manager) VerifDAHeight() uint64 { return m.daHeight.Load() }
+
+// VerifLastSubmittedHeaderHeight returns the in-memory header submission watermark.
+func (m *Manager) VerifLastSubmittedHeaderHeight() uint64 {
+	return m.pendingHeaders.getLastSubmittedHeaderHeight()
+}
+
+// VerifLastSubmittedDataHeight returns the in-memory data submission watermark.
+func (m *Manager) VerifLastSubmittedDataHeight() uint64 {
+	return m.pendingData.getLastSubmittedDataHeight()
+}
+
+// VerifNumPendingHeaders returns the number of headers awaiting DA submission.
+func (m *Manager) VerifNumPendingHeaders() uint64 { return m.pendingHeaders.numPendingHeaders() }
+
+// VerifNumPendingData returns the number of data items awaiting DA submission.
+func (m *Manager) VerifNumPendingData() uint64 { return m.pendingData.numPendingData() }
+
+// VerifTxsAvailable exposes the lazy-mode flag.
+func (m *Manager) VerifTxsAvailable() bool { return m.txsAvailable }
